@@ -3,5 +3,7 @@ CONSTANTS
   Dev <- DevAsIs
   Known <- KnownBuiltin
   Names <- NamesBuiltin
+  Sites <- SitesBuiltin
+  NsFns <- NsFnsBuiltin
 INVARIANT EveryCallEndsInBand
 CHECK_DEADLOCK FALSE
